@@ -37,7 +37,7 @@ def gen_cfg(rng, faithful=False):
         "reset": rng.choice([None, None, -2, -1]),
         "cancelReq": rng.choice(["kafka:90", "kafka:91", "kafka:92", "kafka:93", "-"]),
         # coordinator-routed requests never eat a cancel (client_iface.md)
-        "cancelCommit": rng.choice(["kafka:95", "kafka:95", "cancelled:96"]),
+        "cancelCommit": rng.choice(["kafka:95", "kafka:95", "cancelled:96", "-"]),
     }
     if Fraction(cfg["init"]) > Fraction(cfg["maxd"]) and rng.random() < 0.8:
         cfg["init"] = "1/8"
@@ -184,13 +184,12 @@ class Gen(object):
         cands = []  # (weight, event)
         outstanding = [r for r in run.client.reqs.values() if not r.done]
         for r in outstanding:
-            # a request whose cancel was eaten completes later: a fetch/offset request also successfully (the client goes on
-            # resolving metadata and sends it after all); a coordinator-routed commit only with a failure (client_iface.md)
+            # a request whose cancel was eaten completes later, with a failure or successfully (the client goes on
+            # resolving metadata and sends it after all); the consumer drops the late result
             if r.cancelled:
                 kind = {"fetch": "fetchDone", "offsets": "offsetDone", "offsetFetch": "offsetFetchDone", "commit": "commitDone"}[r.kind]
                 cands.append((4, "%s %d err kafka:%d" % (kind, r.k, self.next_tag())))
-                if r.kind != "commit":
-                    cands.append((4, self.reply_for(r)))
+                cands.append((4, self.reply_for(r)))
             else:
                 cands.append((6, self.reply_for(r)))
         if getattr(run, "cleanupd", None) is not None and not run.cleanupd.called:
